@@ -1,5 +1,9 @@
 import ZV.Model.C27
-/-! `c27 hs <ver> <suite> <key> <kex> <server scenario> <skip 0/1> <mode 0..4> <client scenario> <i>` → `c=<ok|fail> s=<ok|fail>` -/
+/-! `c27 hs <ver> <suite> <key> <kex> <server scenario> <skip 0/1> <mode 0..4> <client scenario> <i>` → `c=<ok|fail> s=<ok|fail>`
+`c27 name <ver> <ServerName form> <certificate kind> <skip 0/1> <i>` → `c=… s=…`
+`c27 res <ver> <server cert> <first client cfg> <second client cfg> <cache k|1> <i>` → `c1=… s1=… c2=… s2=… r2=<1|0|->`
+`c27 sres <ver> <client cert> <first server cfg> <second server cfg> <i>` → same
+(descriptors: see go/props/c27/names.go and resume.go).  The tables below are the scenario → abstract fact mapping (trusted). -/
 namespace ZV.C27
 
 def parseKex (s : String) : Option Kex :=
@@ -26,8 +30,90 @@ def parseMode (s : String) : Option Mode :=
 
 def okStr (b : Bool) : String := if b then "ok" else "fail"
 
+/-- which identity a `Config.ServerName` spelling denotes for `VerifyHostname` as coded: an IP literal (optionally in
+    brackets) is compared with the IP SANs only; anything `net.ParseIP` refuses (zone, trailing dot) is a DNS name,
+    compared case-insensitively with the DNS SANs after dropping ONE trailing dot. -/
+inductive Ident | host | sub | ip4 | ip6 | ll | nothing
+  deriving DecidableEq
+
+def formIdent (s : String) : Option Ident :=
+  if s == "dns" || s == "dnsupper" || s == "dnsdot" then some .host
+  else if s == "dnssub" then some .sub
+  else if s == "ip4" || s == "ip4br" || s == "ip4mapped" then some .ip4
+  else if s == "ip6" || s == "ip6long" || s == "ip6br" then some .ip6
+  else if s == "ip6ll" then some .ll
+  else if s == "dnsdot2" || s == "dnsother" || s == "ip4dot" || s == "ip4other" || s == "ip6zone" || s == "ip6brzone"
+       || s == "ip6other" || s == "ip6brother" || s == "empty" then some .nothing
+  else none
+
+/-- what each certificate kind lists -/
+def certLists (kind : String) (i : Ident) : Option Bool :=
+  if kind == "dns" then some (i == .host)
+  else if kind == "ips" then some (i == .ip4 || i == .ip6 || i == .ll)
+  else if kind == "all" then some (i == .host || i == .ip4 || i == .ip6 || i == .ll)
+  else if kind == "other" then some false
+  else if kind == "wild" then some (i == .sub)
+  else none
+
+def verKex (ver : String) : Kex := if ver == "13" then .tls13 else .ecdhe
+
+/-- server certificate `<issuer><names><life>` seen from client configuration `<skip><roots><name><clock>` -/
+def chainFacts (srv cfg : List Char) : Option ChainFacts :=
+  match srv, cfg with
+  | [iss, names, life], [_, roots, name, clock] =>
+    some ⟨roots == 'C' || roots == iss, clock == 'N' || life == 'L', names == 'b' || names == name⟩
+  | _, _ => none
+
+def rStr (completed resumed : Bool) : String := if !completed then "-" else if resumed then "1" else "0"
+
 def handle (args : List String) : String :=
   match args with
+  | ["name", ver, form, kind, skip, _i] =>
+    match formIdent form with
+    | some id =>
+      match certLists kind id with
+      | some listed =>
+        let ca := clientAccepts (skip == "1") (verKex ver) ⟨listed, true, true⟩
+        let o := outcome (ver == "13") ca true
+        s!"c={okStr o.1} s={okStr o.2}"
+      | none => "bad-op"
+    | none => "bad-op"
+  | ["res", ver, srv, a, b, cache, _i] =>
+    match chainFacts srv.toList a.toList, chainFacts srv.toList b.toList, a.toList, b.toList with
+    | some f1, some f2, [skip1, _, name1, _], [skip2, _, name2, _] =>
+      let kex := verKex ver
+      let ca1 := clientAccepts (skip1 == '1') kex ⟨f1.chainOK, true, true⟩
+      let o1 := outcome (ver == "13") ca1 true
+      let cached : Option Session := if ca1 && (cache == "1" || name1 == name2) then some (sessionOf f1) else none
+      let ca2 := clientAcceptsWithCache (skip2 == '1') kex cached f2 ⟨f2.chainOK, true, true⟩
+      let o2 := outcome (ver == "13") ca2 true
+      let resumed := match cached with
+        | some s => sessionUsable (skip2 == '1') s f2.fresh f2.named
+        | none => false
+      s!"c1={okStr o1.1} s1={okStr o1.2} c2={okStr o2.1} s2={okStr o2.2} r2={rStr (o2.1 && o2.2) resumed}"
+    | _, _, _, _ => "bad-op"
+  | ["sres", ver, cli, a, b, _i] =>
+    match a.toList, b.toList with
+    | [m1, cas1, clock1], [m2, cas2, clock2] =>
+      match parseMode (String.singleton m1), parseMode (String.singleton m2) with
+      | some m1, some m2 =>
+        let hasCert := cli != "none"
+        let chainOK (cas clock : Char) : Bool :=
+          match cli.toList with
+          | [iss, life] => hasCert && (cas == 'C' || cas == iss) && (clock == 'N' || life == 'L')
+          | _ => false
+        let tls13 := ver == "13"
+        let sa1 := serverAccepts m1 ⟨hasCert, chainOK cas1 clock1, true⟩
+        let o1 := outcome tls13 true sa1
+        let sess : Option Bool := if sa1 then some (hasCert && decide (m1.toNat ≥ 1)) else none
+        let tryResume := match sess with
+          | some h => serverResumes m2 h
+          | none => false
+        let sa2 := serverAcceptsWithTicket m2 sess (chainOK cas2 clock2) ⟨hasCert, chainOK cas2 clock2, true⟩
+        let o2 := if tryResume then (sa2, sa2) else outcome tls13 true sa2
+        s!"c1={okStr o1.1} s1={okStr o1.2} c2={okStr o2.1} s2={okStr o2.2} r2={rStr (o2.1 && o2.2) tryResume}"
+      | _, _ => "bad-op"
+    | _, _ => "bad-op"
   | ["hs", _ver, _suite, _key, kex, ss, skip, mode, cs, _i] =>
     match parseKex kex, serverScen ss, parseMode mode, clientScen cs with
     | some k, some sc, some m, some co =>
